@@ -838,8 +838,9 @@ fn build_matcher_tree(
                     ));
                 }
 
-                let bracket = args[i - 1];
-                if bracket == "(" {
+                // Nothing since the opening parenthesis (not `args[i - 1] == "("`:
+                // that word can be an operand, as in `( -name "(" )`).
+                if i == arg_index {
                     return Err(From::from(
                         "invalid expression; empty parentheses are not allowed.",
                     ));
